@@ -331,6 +331,13 @@ func (ex *Exec) bigGCD(a, b BigVal, wantX, wantY bool) (g, x, y BigVal) {
 }
 
 func (ex *Exec) bigCmp(x, y BigVal) *smt.Term {
+	// a reduced group element is smaller than its modulus
+	if x.G != nil && x.G.Reduced && y.G == nil && y.I == x.G.Mod {
+		return smt.I64(-1)
+	}
+	if y.G != nil && y.G.Reduced && x.G == nil && x.I == y.G.Mod {
+		return smt.I64(1)
+	}
 	if x.G != nil && y.G != nil && x.G.Mod == y.G.Mod && x.G.Reduced && y.G.Reduced {
 		eq := ex.bigEq(x, y)
 		return smt.Ite(eq, smt.I64(0), smt.Ite(smt.Lt(x.I, y.I), smt.I64(-1), smt.I64(1)))
